@@ -178,6 +178,7 @@ def obligations(tier):
         v("stack", "ExecuteContext::exit_scope", "leaving a scope pops exactly the top frame (never a locked one) and makes the frame below current, values untouched", "vm/src/thread.rs::ExecuteContext::exit_scope"),
         v("stack", "execute_::return", "function return: the function value and everything the callee had on the stack are replaced by the result; with excess arguments the parked record is consumed too and the RESULT is called with exactly its fields in order", "vm/src/thread.rs::execute_ (statements after the instruction loop)"),
         v("stack", "arm::TailCall", "a tail call behaves as return-then-call: the caller's slot receives the new function and arguments (plus pending excess arguments, in order)", T + "TailCall"),
+        v("stack", "arm::Split", "matching on a constructor: the object on top is replaced by all its fields in order (none for a field-less variant)", T + "Split"),
         v("stack", "arm::GetOffset", "GetOffset(i) replaces the object on top by its i-th field (positional field access; effect 0)", T + "GetOffset"),
         v("stack", "arm::Push", "variable access: Push(i) pushes a copy of slot i of the CURRENT frame (+1); an out-of-range slot is an error value", T + "Push"),
         v("stack", "StackFrame::deref", "a frame dereferences to exactly its own slots", "vm/src/stack.rs::<StackFrame as Deref>::deref"),
